@@ -45,9 +45,14 @@ def _names(ctx, k):
 # ---- aspect "kept": which groups are kept and what their classes are -------------------------------------------------
 
 
-def _kept(ctx, k, res):
+def _kept(ctx, k, res, ghost=False):
     P, T, G, gs, _, _ = _names(ctx, k)
     pr = f"({G}[n] & {gs})"  # members of group n that are exported glyphs
+    if ghost:
+        # loop invariant: through the ghost map prn (kept group -> its pruned member set, recorded when the group is added), so
+        # that adding a group needs no reasoning through sorted()
+        return (f"all(n.startswith('{P}') and n in {G} and n in prn{k} and prn{k}[n] == {pr} and prn{k}[n] != set() "
+                f"and list({res}[n]) == sorted(prn{k}[n]) for n in set({res}))")
     # every kept group is a prefixed UFO group with at least one exported member; its class is exactly the exported
     # members, sorted
     return f"all(n.startswith('{P}') and n in {G} and {pr} != set() and list({res}[n]) == sorted({pr}) for n in set({res}))"
@@ -140,7 +145,7 @@ _DD = Dict(STR, STR)
 
 
 def _groups_contracts(target, ctx, params):
-    """Three contract variants per function, by aspect (each carries only the invariants it needs: with all of them
+    """Two contract variants per function, by aspect (each carries only the invariants it needs: with all of them
     in one proof the solvers' quantifier instantiation does not finish)."""
     common = dict(props=["C05"], params=params, returns=Tuple(GROUPS, GROUPS), locals=_LOCALS, merge_branches=False,
                   modifies=["KGCtx.side1Membership", "KGCtx.side2Membership"])
@@ -165,7 +170,7 @@ def _groups_contracts(target, ctx, params):
     contract(target, name="own", **common, ensures=post,
              canaries={"everything-a-member": f"all(g in {ctx}.side1Membership for g in {ctx}.glyphSet)"},
              ghost_vars=ghost_vars, ghost=ghost, hints=hints, loops=loops)
-    # (2) drop
+    # (2) kept + drop
     ghost_vars, ghost, loops, inv, post = {}, {}, {}, {}, {}
     for k in (1, 2):
         M = f"side{k}Membership"
@@ -177,20 +182,18 @@ def _groups_contracts(target, ctx, params):
         loops[f"for member in members#{k}"] = _drop_member_loop(k)
         inv.update(_drop_inv(ctx, k))
         post.update(_drop_post(ctx, k))
+    # together with "which groups are kept and what their classes are" (through the ghost map prn: light, independent invariants)
+    for k in (1, 2):
+        ghost_vars[f"prn{k}"] = (Dict(STR, Set(STR)), "{}")
+        ghost[f"side{k}Groups[name] = tuple(sorted(members))"] = ghost[f"side{k}Groups[name] = tuple(sorted(members))"] + [f"prn{k} = {{**prn{k}, name: members}}"]
+        inv[f"kept.{k}"] = _kept(ctx, k, f"side{k}Groups", ghost=True)
+        post[f"kept.{k}"] = _kept(ctx, k, f"result[{k - 1}]")
     loops[_OUTER] = Loop(index="i", seq="K", invariants=inv)
-    contract(target, name="drop", **common, ensures=post,
+    contract(target, name="kept-drop", **common, ensures=post,
              canaries={"nothing-dropped": f"len(result[0]) + len(result[1]) == len({ctx}.font.groups)"},
+             # the pruning comprehension is the intersection with the exported glyph set (proved once)
+             hints=dict(_PRUNE_HINT),
              ghost_vars=ghost_vars, ghost=ghost, loops=loops)
-    # (3) kept: which groups are kept and what their classes are (on its own: its invariant builds a set term per group, and as
-    # a hypothesis of the other aspects' obligations that makes the solvers' instantiation run away)
-    contract(
-        target, name="kept", **common,
-        ensures={f"kept.{k}": _kept(ctx, k, f"result[{k - 1}]") for k in (1, 2)},
-        canaries={"keeps-every-group": f"len(result[0]) + len(result[1]) == len({ctx}.font.groups)"},
-        # the pruning comprehension is the intersection with the exported glyph set (proved once, then used under sorted())
-        hints=dict(_PRUNE_HINT),
-        loops={_OUTER: Loop(index="i", seq="K", invariants={f"kept.{k}": _kept(ctx, k, f"side{k}Groups") for k in (1, 2)})},
-    )
 
 
 _groups_contracts("ufo2ft.featureWriters.kernFeatureWriter:KernFeatureWriter.getKerningGroups", "self.context", {"self": Ref("KGWriter")})
@@ -224,6 +227,6 @@ def _groups_build2(case):
     return {"context": c05._writer_for(case).context}
 
 
-for _v in ("own", "drop", "kept"):
+for _v in ("own", "kept-drop"):
     CONTRACTS[f"ufo2ft.featureWriters.kernFeatureWriter:KernFeatureWriter.getKerningGroups#{_v}"].runtime = Runtime(_groups_cases, _groups_build1)
     CONTRACTS[f"ufo2ft.featureWriters.kernFeatureWriter2:get_kerning_groups#{_v}"].runtime = Runtime(_groups_cases, _groups_build2)
